@@ -902,6 +902,14 @@ func engineCorpus(t *testing.T, out *sink) int {
 			gdepth: 50, strict: strict,
 		})
 	}
+	// the SAME object name in two namespaces as parents of one object (a union-typed relation): a traversal looks at both
+	tt := func(r, cr string) ast.Child { return &ast.TupleToSubjectSet{Relation: r, ComputedSubjectSetRelation: cr} }
+	scs = append(scs, sc{
+		nss:    doc(ast.Relation{Name: "par"}, ast.Relation{Name: "view", SubjectSetRewrite: or(tt("par", "m"))}, ast.Relation{Name: "both", SubjectSetRewrite: and(tt("par", "m"), tt("par", "m"))}),
+		tuples: []string{"Doc:d#par@G:x#", "Doc:d#par@H:x#", "Doc:d#par@G:y#", "G:x#m@bob", "H:x#m@alice", "G:y#m@carol", "Doc:e#par@H:x#", "Doc:e#par@H:x#"},
+		checks: []string{"Doc:d#view@alice", "Doc:d#view@bob", "Doc:d#view@carol", "Doc:d#view@dave", "Doc:e#view@alice", "Doc:e#view@bob", "Doc:d#both@alice", "Doc:d#both@bob"},
+		gdepth: 50,
+	})
 	// visited-set hygiene (the D1 family): two operands of one rewrite that must BOTH walk the same subject set, the
 	// subject being a member of it only indirectly, for every operand kind (computed, traversal, nested union, negation)
 	// under && and ||, asked directly and through a subject-set tuple (below an enclosing expansion, where a visited set
